@@ -1,11 +1,15 @@
 // C16 conformance harness: one group of source ranges (see c16_range.hpp).  Drives and records only.
 #include "c16_range.hpp"
 
-namespace c16
+
+// entry point of part "ranges" (see c16_main.cpp)
+extern "C" void c16_part_ranges(unsigned long long const seed, int const thorough_flag)
 {
-void run_ranges(Sel &sel, bool)
-{
+  using namespace c16;
+  bool const thorough = thorough_flag != 0;
+  (void)thorough;
+  Sel sel(seed, thorough);
   int_range_sources(sel);
+  long_int_range_sources();
   enum_range_sources(sel);
-}
 }
